@@ -222,6 +222,29 @@ def pdgid_cases():
     return bad, len(t["evt"])
 
 
+def name_sweep():
+    """the string, list and mapping forms of a final state for every name of the EvtGen table (names with slashes, primes,
+    stars, parentheses, signs are not left to chance): the same multiset"""
+    from decaylanguage import DaughtersDict, DecayMode
+    t = pdg_tables()
+    bad = []
+    names = [n for n in sorted(t["evt"]) if " " not in n and "\t" not in n]
+    for n in names:
+        other = "pi0" if n != "pi0" else "gamma"
+        want = {n: 2, other: 1}
+        try:
+            forms = {"string": DaughtersDict(f"{n} {other} {n}"), "list": DaughtersDict([n, other, n]), "mapping": DaughtersDict(dict(want)),
+                     "mode-from-string": DecayMode(1.0, f"{n} {n} {other}").daughters,
+                     "from_dict-string": DecayMode.from_dict({"bf": 1.0, "fs": f"{other} {n} {n}"}).daughters}
+            for k, dd in forms.items():
+                if dict(dd) != want or dd.to_list() != sorted([n, n, other]) or len(dd) != 3:
+                    bad.append((n, k, dict(dd)))
+                    break
+        except Exception as e:  # noqa: BLE001
+            bad.append((n, "raised", repr(e)))
+    return bad, len(names)
+
+
 # ------------------------------------------------------------------ (e) parser-produced single-line chains
 def parser_chain_checks(rng, n):
     """from_dict(parser chain).to_dict() equals the parser's dictionary up to the order of daughters"""
@@ -332,6 +355,11 @@ def run(tier, seed, replay_path=None):
         o.evaluations += n
         for b in bad[:5]:
             o.violate("C11:final-state-from-pdg-ids", {"pdgid": b[1]}, {"name": b[0], "observed": b[2]})
+        bad, n = name_sweep()
+        o.notes["names_swept_through_every_final_state_form"] = n
+        o.evaluations += n
+        for b in bad[:5]:
+            o.violate("C11:final-state-from-string-list-mapping-ids-is-the-same-multiset", {"name": b[0], "form": b[1]}, {"observed": b[2]})
         bad, n = parser_chain_checks(rng, 600 if deep else 80)
         o.notes["parser_chains_checked"] = n
         o.traces += n
